@@ -463,7 +463,10 @@ def eval_program(cmds, cx, names):
         elif 81 <= c <= 96:
             st.append(bytes([c - 80]))
         else:
-            r = OPS[names[c]](st, cx)
+            nm = names.get(c)
+            if nm is None:          # unknown / disabled / reserved opcode: the script fails
+                return False, st
+            r = OPS[nm](st, cx)
             if r is False:
                 return False, st
     if vf:
@@ -476,3 +479,21 @@ def eval_program(cmds, cx, names):
 def cast_to_bool_consensus_or_dev(x, cx):
     # IF/NOTIF in bitcoinlib use decode_num(x) == 0, which coincides with CastToBool for every byte string
     return wire.cast_to_bool(x)
+
+
+# ------------------------------------------------------------------------------------------------- opcode numbers
+# Bitcoin Core src/script/script.h (enum opcodetype) - independent of bitcoinlib's own table
+CORE_OPCODES = {
+    0x61: 'nop', 0x69: 'verify', 0x6a: 'return', 0x6d: '2drop', 0x6e: '2dup', 0x6f: '3dup', 0x70: '2over', 0x71: '2rot',
+    0x72: '2swap', 0x73: 'ifdup', 0x74: 'depth', 0x75: 'drop', 0x76: 'dup', 0x77: 'nip', 0x78: 'over', 0x79: 'pick',
+    0x7a: 'roll', 0x7b: 'rot', 0x7c: 'swap', 0x7d: 'tuck', 0x82: 'size', 0x87: 'equal', 0x88: 'equalverify',
+    0x8b: '1add', 0x8c: '1sub', 0x8f: 'negate', 0x90: 'abs', 0x91: 'not', 0x92: '0notequal', 0x93: 'add', 0x94: 'sub',
+    0x9a: 'booland', 0x9b: 'boolor', 0x9c: 'numequal', 0x9d: 'numequalverify', 0x9e: 'numnotequal',
+    0x9f: 'numlessthan', 0xa0: 'numgreaterthan', 0xa1: 'numlessthanorequal', 0xa2: 'numgreaterthanorequal',
+    0xa3: 'min', 0xa4: 'max', 0xa5: 'within', 0xa6: 'ripemd160', 0xa7: 'sha1', 0xa8: 'sha256', 0xa9: 'hash160',
+    0xaa: 'hash256', 0xb0: 'nop1', 0xb3: 'nop4', 0xb4: 'nop5', 0xb5: 'nop6', 0xb6: 'nop7', 0xb7: 'nop8', 0xb8: 'nop9',
+    0xb9: 'nop10',
+}
+# opcodes consensus makes the script fail unconditionally when executed (disabled / reserved / invalid)
+CORE_FAILING = [0x50, 0x62, 0x65, 0x66, 0x7e, 0x7f, 0x80, 0x81, 0x83, 0x84, 0x85, 0x86, 0x89, 0x8a, 0x8d, 0x8e, 0x95, 0x96, 0x97,
+                0x98, 0x99, 0xba, 0xff]
